@@ -83,7 +83,7 @@ func vwReset(maxSubs int) {
 	globals.maxTagCount = 16
 	globals.cluster = nil
 	globals.immutableTagNS = map[string]bool{"basic": true}
-	globals.maskedTagNS = map[string]bool{}
+	globals.maskedTagNS = map[string]bool{"rest": true}
 	vw = &vWorld{ad: ad, users: map[string]types.Uid{}, unames: map[types.Uid]string{}, sess: map[string]*Session{},
 		tnames: map[string]string{}, treal: map[string]string{}, uaTimers: map[*Topic]*time.Timer{}, curUA: map[*Topic]*string{}}
 }
@@ -129,6 +129,11 @@ func (w *vWorld) tname(name string) string {
 			return w.uname(uid)
 		}
 	}
+	if strings.HasPrefix(name, "fnd") && len(name) > 3 {
+		if uid := types.ParseUid(name[3:]); !uid.IsZero() {
+			return "fnd:" + w.uname(uid)
+		}
+	}
 	if strings.HasPrefix(name, "p2p") {
 		if u1, u2, err := types.ParseP2P(name); err == nil {
 			a, b := w.uname(u1), w.uname(u2)
@@ -155,6 +160,11 @@ func (w *vWorld) realTopic(sym string, asUid types.Uid) string {
 	}
 	if uid, ok := w.users[sym]; ok {
 		return uid.UserId()
+	}
+	if strings.HasPrefix(sym, "fnd:") {
+		if uid, ok := w.users[sym[4:]]; ok {
+			return uid.FndName()
+		}
 	}
 	if strings.HasPrefix(sym, "P:") {
 		if ps := strings.Split(sym, ":"); len(ps) == 3 {
@@ -956,10 +966,22 @@ func (w *vWorld) op(ws []string) (string, bool) {
 			u.State = types.StateSuspended
 		}
 		u.Public = "pub" + ws[1]
+		if kv["tags"] != "" {
+			u.Tags = strings.Split(kv["tags"], ",")
+		}
 		if kv["state"] == "missing" {
 			// a session of an account which is not there any more: the name stands for an id with no record behind it
 		} else if err := w.ad.UserCreate(u); err != nil {
 			return "err", true
+		} else {
+			// store.Users.Create: the account comes with its subscriptions to 'me' and 'fnd' (store.go:301-319)
+			if err := store.Subs.Create(
+				&types.Subscription{ObjHeader: types.ObjHeader{CreatedAt: u.CreatedAt}, User: u.Id, Topic: uid.UserId(),
+					ModeWant: types.ModeCSelf, ModeGiven: types.ModeCSelf},
+				&types.Subscription{ObjHeader: types.ObjHeader{CreatedAt: u.CreatedAt}, User: u.Id, Topic: uid.FndName(),
+					ModeWant: types.ModeCSelf, ModeGiven: types.ModeCSelf}); err != nil {
+				return "err", true
+			}
 		}
 		w.users[ws[1]] = uid
 		w.unames[uid] = ws[1]
@@ -1115,6 +1137,15 @@ func (w *vWorld) op(ws []string) (string, bool) {
 	case "setdesc":
 		set := &MsgClientSet{Id: "1", Topic: w.realTopic(ws[2], w.asUidOf(s, kv))}
 		set.Desc = &MsgSetDesc{Public: vAny(kvOr(kv, "pub")), Private: vAny(kvOr(kv, "priv")), Trusted: vAny(kvOr(kv, "tr"))}
+		if ws[2] == "fnd" {
+			// a search query: `+` in the op line stands for a space
+			if q, ok := set.Desc.Public.(string); ok {
+				set.Desc.Public = strings.ReplaceAll(q, "+", " ")
+			}
+			if q, ok := set.Desc.Private.(string); ok {
+				set.Desc.Private = strings.ReplaceAll(q, "+", " ")
+			}
+		}
 		if kv["auth"] != "" || kv["anon"] != "" {
 			set.Desc.DefaultAcs = &MsgDefaultAcsMode{Auth: vOpt(kvOr(kv, "auth")), Anon: vOpt(kvOr(kv, "anon"))}
 		}
